@@ -3,7 +3,7 @@
    the end-to-end composition over traces is checked by correspondence and by
    the direct oracle, not (yet) by one trace theorem: see MANIFEST level note. *)
 Require Import NX.Base.Prelude NX.Base.ListX NX.Model.PQ NX.Model.Sink NX.Model.Sim.
-Require Import NX.Proofs.PQProofs NX.Proofs.SimBasic NX.Proofs.SimQueue NX.Proofs.SimSched.
+Require Import NX.Proofs.PQProofs NX.Proofs.SimBasic NX.Proofs.SimQueue NX.Proofs.SimSched NX.Proofs.SimTerm NX.Proofs.SimComplete NX.Proofs.SimOrder.
 
 (* 1. Among equal keys (time, origin) the queue hands out entries in insertion
       order: it refines "first entry among those with the least key". *)
@@ -32,6 +32,28 @@ Theorem c07_periodic_reinserted_at_pull :
     pull_next q = Some (k, a, pq_insert q1 ((fst k + p)%Z, snd k) a).
 Proof. exact pull_next_periodic. Qed.
 Print Assumptions c07_periodic_reinserted_at_pull.
+
+(* 1''. The critical section of a step pulls entries in STRICTLY increasing
+      (key, epoch) order: crit_i is crit keeping the pulled items (c07_crit_ghost),
+      and the concatenation of its groups is strictly sorted - so inside a group
+      (one key) the ops are in epoch = scheduling order, and an entry is fired
+      after every entry with a smaller key or the same key and a smaller epoch. *)
+Theorem c07_crit_ghost :
+  forall fuel s q bound cur group groups,
+    crit fuel s q bound cur (ops_of group) (map ops_of groups) =
+    option_map (fun p => (fst p, map ops_of (snd p))) (crit_i fuel s q bound cur group groups).
+Proof. exact crit_i_spec. Qed.
+Print Assumptions c07_crit_ghost.
+
+Theorem c07_fired_in_key_epoch_order :
+  forall fuel s q bound cur group groups q' gs,
+    pq_wf q -> q_from q (fst cur) -> (exists m0, pq_peek_item q = Some m0 /\ ikey m0 = cur) ->
+    strictly_sorted (concat groups ++ group) ->
+    (forall x y, In x (concat groups ++ group) -> In y (items q) -> item_lt action x y) ->
+    crit_i fuel s q bound cur group groups = Some (q', gs) ->
+    strictly_sorted (concat gs).
+Proof. exact crit_i_sorted. Qed.
+Print Assumptions c07_fired_in_key_epoch_order.
 
 (* 2. Actions pulled with one key go, in pull order, into ONE sequential task;
       a task does not start its next op while a delivery of the current one is
